@@ -6,6 +6,11 @@
 //	r.<hexseed>.<hash64>.<block>     tbtc  notifyDKGResultSubmitted
 //	w.<id64>                         tbtc  notifyWalletClosed
 //	b.<hexseed>                      beacon event.Deduplicator.NotifyDKGStarted
+//	t.<seconds>                      (seq only) the clock advances: every stored timestamp of all
+//	                                 four TimeCaches is moved back (reflect/unsafe, no sleeping);
+//	                                 multiples of 1000 s only — the 7-day period (604800 s) is 200 s
+//	                                 away from the nearest multiple, so the real time a case takes
+//	                                 never decides a comparison
 //
 // Op lines (one complete case each, always on a fresh pair of deduplicators):
 //
@@ -22,9 +27,14 @@ import (
 	"go/ast"
 	"go/token"
 	"math/big"
+	"reflect"
 	"strconv"
 	"strings"
 	"sync"
+	"time"
+	"unsafe"
+
+	"github.com/keep-network/keep-common/pkg/cache"
 
 	"keepverif/harness/astfacts"
 	"keepverif/harness/hx"
@@ -40,6 +50,26 @@ type dedups struct {
 
 func fresh() *dedups {
 	return &dedups{t: tbtc.VerifC37NewDeduplicator(), b: beaconevent.NewDeduplicator(nil)}
+}
+
+// age moves every timestamp of the cache back by d (the trick of harness/c21).
+func age(tc *cache.TimeCache, d time.Duration) {
+	v := reflect.ValueOf(tc).Elem()
+	mu := (*sync.RWMutex)(unsafe.Pointer(v.FieldByName("mutex").UnsafeAddr()))
+	m := *(*map[string]time.Time)(unsafe.Pointer(v.FieldByName("cache").UnsafeAddr()))
+	mu.Lock()
+	defer mu.Unlock()
+	for k, t := range m {
+		m[k] = t.Add(-d)
+	}
+}
+
+func (d *dedups) advance(secs uint64) {
+	dur := time.Duration(secs) * time.Second
+	for _, tc := range d.t.VerifC37Caches() {
+		age(tc, dur)
+	}
+	age(d.b.VerifC37SeedCache(), dur)
 }
 
 type event struct {
@@ -76,6 +106,13 @@ func parseEvent(tok string) (*event, bool) {
 		return true
 	}
 	switch {
+	case len(p) == 2 && p[0] == "t":
+		ev.kind = 't'
+		b, err := strconv.ParseUint(p[1], 10, 40)
+		if err != nil || strconv.FormatUint(b, 10) != p[1] || b%1000 != 0 {
+			return nil, false
+		}
+		ev.block = b
 	case len(p) == 2 && (p[0] == "s" || p[0] == "b"):
 		ev.kind = p[0][0]
 		if !seed(p[1]) {
@@ -136,18 +173,39 @@ func concatKey(ev *event) string {
 
 func tagsOf(evs []*event) string {
 	seen := map[string]bool{}
+	last := map[string]uint64{}
 	ck := map[string]string{}
-	dup, collide, beacon, wallet, result := false, false, false, false, false
+	text := map[string]byte{} // key text of seed / wallet events -> kinds seen (bit 1 = s, bit 2 = w)
+	dup, collide, beacon, wallet, result, cross, expire, agedup, adv := false, false, false, false, false, false, false, false, false
+	var now uint64
 	for _, e := range evs {
+		if e.kind == 't' {
+			now += e.block
+			adv = adv || e.block > 0
+			continue
+		}
 		if seen[e.canon] {
 			dup = true
+			if now-last[e.canon] > periodSeconds {
+				expire = true
+			} else if now > last[e.canon] {
+				agedup = true
+			}
 		}
 		seen[e.canon] = true
+		last[e.canon] = now
 		switch e.kind {
+		case 's':
+			k := e.seed.Text(16)
+			text[k] |= 1
+			cross = cross || text[k] == 3
 		case 'b':
 			beacon = true
 		case 'w':
 			wallet = true
+			k := hex.EncodeToString(e.hash[:])
+			text[k] |= 2
+			cross = cross || text[k] == 3
 		case 'r':
 			result = true
 			k := concatKey(e)
@@ -161,13 +219,16 @@ func tagsOf(evs []*event) string {
 	for _, x := range []struct {
 		b bool
 		s string
-	}{{dup, "dup"}, {collide, "collide"}, {beacon, "beacon"}, {wallet, "wallet"}, {result, "result"}} {
+	}{{dup, "dup"}, {collide, "collide"}, {beacon, "beacon"}, {wallet, "wallet"}, {result, "result"},
+		{cross, "cross"}, {adv, "advance"}, {agedup, "agedup"}, {expire, "expire"}} {
 		if x.b {
 			t = append(t, x.s)
 		}
 	}
 	return strings.Join(t, "+")
 }
+
+const periodSeconds = uint64(tbtc.DKGSeedCachePeriod / time.Second)
 
 func exec(op string) (string, string) {
 	f := strings.Fields(op)
@@ -180,6 +241,10 @@ func exec(op string) (string, string) {
 		d := fresh()
 		var out []int
 		for _, e := range evs {
+			if e.kind == 't' {
+				d.advance(e.block)
+				continue
+			}
 			if deliver(d, e) {
 				out = append(out, 1)
 			} else {
@@ -197,6 +262,11 @@ func exec(op string) (string, string) {
 		evs, ok := parseEvents(f[3])
 		if err1 != nil || err2 != nil || !ok || g < 1 || g > 64 || rounds < 1 || rounds > 5000 {
 			return "bad-op", "bad"
+		}
+		for _, e := range evs {
+			if e.kind == 't' {
+				return "bad-op", "bad"
+			}
 		}
 		// distinct event values
 		idx := map[string]int{}
@@ -361,18 +431,67 @@ func genEvents(r *hx.Rng, n int, allowDup bool) []string {
 	return evs
 }
 
+// crossKind: one 32-byte value used as DKG seed (tbtc and beacon), as wallet ID and as result
+// seed/hash, in a random order, with duplicates.
+func crossKind(r *hx.Rng) []string {
+	x := string(hexd[1+r.Intn(15)]) + randHex(r, 63)
+	evs := []string{"s." + x, "w." + x, "r." + x + "." + x + "." + randBlock(r), "b." + x}
+	if r.Bool() {
+		evs = append(evs, "r."+randSeed(r)+"."+x+"."+randBlock(r))
+	}
+	for k := r.Range(0, 3); k > 0; k-- {
+		evs = append(evs, evs[r.Intn(len(evs))])
+	}
+	p := r.Perm(len(evs))
+	out := make([]string, len(evs))
+	for i, j := range p {
+		out[i] = evs[j]
+	}
+	return out
+}
+
+// withAdvances inserts clock advances (multiples of 1000 s around the 604800 s period) and
+// re-deliveries of earlier events.
+func withAdvances(r *hx.Rng, evs []string) []string {
+	var out []string
+	for _, e := range evs {
+		out = append(out, e)
+		if r.Chance(1, 2) {
+			out = append(out, "t."+strconv.Itoa(hx.Pick(r, []int{0, 1000, 302000, 604000, 605000, 1000000, 100000})))
+			if r.Chance(2, 3) {
+				out = append(out, out[r.Intn(len(out))])
+				if strings.HasPrefix(out[len(out)-1], "t.") {
+					out[len(out)-1] = e
+				}
+			}
+		}
+	}
+	return out
+}
+
 func gen(r *hx.Rng, n int, tier string) []string {
 	var ops []string
 	for i := 0; i < n; i++ {
 		switch {
+		case i%8 == 1:
+			ops = append(ops, "seq "+strings.Join(crossKind(r), ","))
+		case i%8 == 5:
+			base := genEvents(r, r.Range(1, 6), true)
+			if r.Chance(1, 3) {
+				base = crossKind(r)
+			}
+			ops = append(ops, "seq "+strings.Join(withAdvances(r, base), ","))
 		case i%4 == 3:
 			g := r.Range(2, 8)
 			rounds := r.Range(20, 60)
 			if tier == "thorough" {
 				rounds = r.Range(50, 200)
 			}
-			ops = append(ops, fmt.Sprintf("conc %d %d %s", g, rounds,
-				strings.Join(genEvents(r, r.Range(1, 4), r.Chance(1, 4)), ",")))
+			evs := genEvents(r, r.Range(1, 4), r.Chance(1, 4))
+			if r.Chance(1, 5) {
+				evs = crossKind(r)
+			}
+			ops = append(ops, fmt.Sprintf("conc %d %d %s", g, rounds, strings.Join(evs, ",")))
 		case r.Chance(1, 25):
 			ops = append(ops, "seq "+randHex(r, r.Range(1, 9))) // malformed
 		default:
